@@ -1,104 +1,95 @@
 import TakVerif.Spec.ForcedWin
+import TakVerif.Proofs.ApplyCfg
 
 /-! The Tak model is an alternating game: every accepted move hands the turn to the other player. -/
 namespace C06
 open Tak Tak.PN Spec.Game
 
-theorem analyze_move (p q : Pos) (h : p.analyze = some q) : q.move = p.move := by
-  unfold Pos.analyze at h
-  simp only at h
-  split at h
-  · injection h with h; subst h; rfl
-  · exact absurd h (by simp)
+theorem finish_move {n q : Pos} (h : finish n = .ok q) : q.move = n.move := by rw [finish_ok h]
 
-theorem finish_move (n q : Pos) (h : finish n = .ok q) : q.move = n.move := by
-  unfold finish at h
+theorem enterSquare_move {next q : Pos} {top : Piece} {ct i : Nat}
+    (h : Tak.enterSquare next top ct i = .ok q) : q.move = next.move := by
+  unfold Tak.enterSquare at h
   split at h
-  · rename_i q' ha
-    injection h with h; subst h
-    exact analyze_move n _ ha
-  · exact absurd h (by simp)
+  · cases h
+  · split at h
+    · split at h
+      · cases h
+      · cases h; rfl
+    · cases h; rfl
 
-theorem slideStep_move (basis : Array W) (p : Pos) (top : Piece) (stack : W) (dx dy : Int) (st st' : SlideSt) (c : Nat)
+theorem slideStep_move {basis : Array W} {p : Pos} {top : Piece} {stack : W} {dx dy : Int} {st st' : SlideSt} {c : Nat}
     (h : slideStep basis p top stack dx dy st c = .ok st') : st'.next.move = st.next.move := by
   unfold slideStep at h
-  simp only at h
+  dsimp only at h
   split at h
-  · exact absurd h (by simp)
-  · split at h
-    · exact absurd h (by simp)
-    · split at h
-      · exact absurd h (by simp)
-      · rename_i next hb
-        have hn : next.move = st.next.move := by
-          split at hb
-          · exact absurd hb (by simp)
-          · split at hb
-            · split at hb
-              · exact absurd hb (by simp)
-              · injection hb with hb; subst hb; rfl
-            · injection hb with hb; subst hb; rfl
-        injection h with h
-        subst h
-        simp only
-        repeat' split
-        all_goals simp [hn]
+  · cases h
+  split at h
+  · cases h
+  split at h
+  · cases h
+  · rename_i next he
+    cases h
+    have := congrArg (·.2.2.2.2.2.2) (dropOn_scalars basis next top stack st.ct c
+      (st.x + dx + (st.y + dy) * (p.cfg.size : Int)).toNat)
+    simp only [Pos.scalars] at this
+    rw [this]
+    exact enterSquare_move he
 
-
-theorem slideLoop_move (basis : Array W) (p : Pos) (top : Piece) (stack : W) (dx dy : Int) :
-    ∀ (cs : List Nat) (st st' : SlideSt), slideLoop basis p top stack dx dy cs st = .ok st' →
-      st'.next.move = st.next.move := by
-  intro cs
-  induction cs with
-  | nil => intro st st' h; simp only [slideLoop] at h; injection h with h; subst h; rfl
+theorem slideLoop_move {basis : Array W} {p : Pos} {top : Piece} {stack : W} {dx dy : Int} (drops : List Nat)
+    {st st' : SlideSt} (h : slideLoop basis p top stack dx dy drops st = .ok st') : st'.next.move = st.next.move := by
+  induction drops generalizing st with
+  | nil => simp only [slideLoop] at h; cases h; rfl
   | cons c cs ih =>
-    intro st st' h
-    simp only [slideLoop, bind, Except.bind] at h
+    simp only [slideLoop] at h
     split at h
-    · exact absurd h (by simp)
+    · cases h
     · rename_i st1 h1
-      rw [ih st1 st' h, slideStep_move basis p top stack dx dy st st1 c h1]
+      rw [ih h, slideStep_move h1]
 
+/-- every accepted move (the pass move included) advances the ply counter by one -/
 theorem apply_move (basis : Array W) (p q : Pos) (m : Move) (h : p.apply basis m = .ok q) :
     q.move = p.move + 1 := by
   unfold Pos.apply at h
   dsimp only at h
   split at h
-  · exact finish_move _ q h
-  · split at h
-    · exact absurd h (by simp)
-    · split at h
-      · exact absurd h (by simp)
-      · split at h
-        · exact absurd h (by simp)
-        · split at h
-          · -- placement
-            split at h
-            · exact absurd h (by simp)
-            · split at h
-              · exact absurd h (by simp)
-              · rw [finish_move _ q h]
-                simp only
-                repeat' split
-                all_goals rfl
-          · -- slide
-            split at h
-            · exact absurd h (by simp)
-            · split at h
-              · exact absurd h (by simp)
-              · split at h
-                · exact absurd h (by simp)
-                · split at h
-                  · exact absurd h (by simp)
-                  · split at h
-                    · exact absurd h (by simp)
-                    · split at h
-                      · exact absurd h (by simp)
-                      · rename_i st hl
-                        rw [finish_move _ q h, slideLoop_move _ _ _ _ _ _ _ _ st hl]
-                        simp only
-                        repeat' split
-                        all_goals rfl
+  · rw [finish_move h]
+  split at h
+  · cases h
+  split at h
+  · cases h
+  split at h
+  · cases h
+  split at h
+  · rw [placeOn_eq] at h
+    split at h
+    · cases h
+    split at h
+    · cases h
+    · rw [finish_move h]; rfl
+  · unfold slideFrom at h
+    dsimp only at h
+    split at h
+    · cases h
+    split at h
+    · cases h
+    split at h
+    · cases h
+    split at h
+    · cases h
+    split at h
+    · cases h
+    split at h
+    · cases h
+    · rename_i st hst
+      rw [finish_move h, slideLoop_move _ hst]
+      have := congrArg (·.2.2.2.2.2.2) (liftFrom_scalars basis { p with move := p.move + 1 }
+        ((p.stacks.getD (m.x + m.y * (p.cfg.size : Int)).toNat 0 <<< 1) |||
+          (if (‹Piece›).color == Color.black then 1#64 else 0#64))
+        (p.height.getD (m.x + m.y * (p.cfg.size : Int)).toNat 0).toNat
+        (List.foldl (· + ·) 0 (Slides.elems m.slides)) (m.x + m.y * (p.cfg.size : Int)).toNat)
+      simp only [Pos.scalars] at this
+      exact this
 
 theorem takGame_alternating (basis : Array W) : Alternating (takGame basis) where
   binary := fun p => by
